@@ -275,7 +275,7 @@ pub fn specs() -> Vec<PropSpec> {
         },
         PropSpec {
             id: "C06",
-            engine: "byz",
+            engine: "byz,rights",
             budget_s: (40, 600),
             level: "exploration",
             rule: "as C02 with the signature operators: a validly signed reference re-cut at the boundary between its unlength-prefixed fields (source entity \"11\" + label \"32\" -> \"1\" + \"132\", both reference fields of a model built for the purpose), and rows / references in H's name whose signature is the answer H gives to an identity challenge chosen by M; nothing H did not write may be stored by V under H's key",
